@@ -1,6 +1,6 @@
 #!/usr/bin/env python3
 """Regenerate gtverif/floors.json from the instance counts decided on the CURRENT tree (run only on a tree that was
-triaged by hand).  Tolerant floors: 1 for a singleton, count-1 below five, 80 % otherwise; 50 % for the closure-wide
+triaged by hand).  Tolerant floors: 1 for a singleton, count-1 below five, 70 % otherwise; 50 % for the closure-wide
 rules whose instance count follows the size of the call-graph closure (R-SORT, R-INJ.*)."""
 import json
 import math
@@ -28,7 +28,7 @@ for p in sorted(props.REGISTRY):
         elif c < 5:
             f = c - 1
         else:
-            f = math.ceil(0.8 * c)
+            f = math.ceil(0.7 * c)
         fl[r] = f
     out[p] = fl
 path = os.path.join(os.path.dirname(os.path.abspath(__file__)), '..', 'gtverif', 'floors.json')
